@@ -25,7 +25,8 @@ def run(ctx):
     ]
     if ctx.replay:
         ctx.tie("replay", [h, "run", ctx.replay], [drv]); return
-    ctx.tie("known-findings+corpus", [h, "run", os.path.join(VERIF, "findings", "C19_F12a.case")], [drv])
+    ctx.tie("known-findings", [h, "run", os.path.join(VERIF, "findings", "C19_F12a.case")], [drv])
+    ctx.tie("corpus", [h, "run", os.path.join(VERIF, "corpus", "route", "C19_corpus.case")], [drv])
     n = 500 if ctx.quick else 6000
     ctx.tie("route-differential", [h, "gen", "--seed", str(ctx.seed), "--cases", str(n), "--tier", ctx.tier], [drv], timeout=3000)
     # shutdown racing k emitting threads: custom stream + file appender (writer thread), Block policy
